@@ -397,9 +397,9 @@ def write_evidence(ctx):
         "wall_s": round(time.time() - ctx.t0, 2),
         "violations": len(ctx.violations),
     }
-    if os.path.abspath(REPO) == "/repo":
+    if os.path.abspath(REPO) == "/repo" and ctx.proof_ok:
         path = os.path.join(VERIF, "evidence", ctx.prop + ".json")
-    else:   # a run against a scratch copy of rope never overwrites the committed evidence
+    else:   # a run against a scratch copy of rope, or one that skipped / failed the proof gate, never overwrites evidence/
         os.makedirs(os.path.join(BUILD, "evidence-scratch"), exist_ok=True)
         path = os.path.join(BUILD, "evidence-scratch", ctx.prop + ".json")
     with open(path, "w") as f:
